@@ -7,15 +7,28 @@ C13_CLAUSES_RANDOM = ["C13_QueueSound_Random", "C13_QueueComplete_Random", "C13_
 
 RANDOM_RND = T(
     [dict(n=10, len=25, procs=6, cfg="users=3,provs=2,funds=25,timeout=2"),
-     dict(n=10, len=30, procs=6, cfg="users=2,provs=1,funds=35,timeout=3,maxn=4")],
+     dict(n=10, len=30, procs=6, cfg="users=2,provs=1,funds=35,timeout=3,maxn=4"),
+     dict(n=6, len=30, procs=2, cfg="users=3,provs=1,bound=0,funds=25,timeout=2,zh=1")],
     [dict(n=60, len=30, procs=7, cfg="users=3,provs=2,funds=25,timeout=2"),
-     dict(n=60, len=40, procs=7, cfg="users=4,provs=1,funds=35,timeout=3,maxn=5")])
+     dict(n=60, len=40, procs=7, cfg="users=4,provs=1,funds=35,timeout=3,maxn=5"),
+     dict(n=30, len=40, procs=4, cfg="users=3,provs=1,bound=0,funds=25,timeout=2,zh=1")])
 RANDOM_GEN = T([dict(cfg="GEN_Random.cfg", num=20, depth=22, seeds=12)],
                [dict(cfg="GEN_Random.cfg", num=60, depth=26, seeds=14)])
-RANDOM_MC = T([dict(cfg="MC_Random.cfg", timeout=1500)], [dict(cfg="MC_Random_big.cfg", timeout=3400)])
+RANDOM_MC = T([dict(cfg="MC_Random.cfg", timeout=1500),
+               # restart from a zero-height export (model-level PrepForZeroHeightGenesis / export / import)
+               dict(cfg="MC_Random_zh.cfg", timeout=1500)],
+              [dict(cfg="MC_Random_big.cfg", timeout=3400),
+               dict(cfg="MC_Random_zh.cfg", timeout=1500),
+               # block intervals of 2^64 - k (they wrap to a due height in the past)
+               dict(cfg="MC_Random_wrap.cfg", timeout=3400)])
+# MC_Random_live.cfg (LiveSpec / Live_Fulfilled) is exploratory and in no tier.
 RANDOM_GEN_CFG = "users=2,provs=1,funds=25,timeout=2,price=10"
 # fixed coverage suite: exercises every required antecedent whatever the seed
-RANDOM_SCN = [dict(file="scenarios/random_cover.ndjson", cfg=RANDOM_GEN_CFG)]
+RANDOM_SCN = [dict(file="scenarios/random_cover.ndjson", cfg=RANDOM_GEN_CFG),
+              # beyond C18 (diagnostic clauses X18_*): shared ids, late answers, wrapping intervals, zero-height restart
+              dict(file="scenarios/random_dup.ndjson", cfg=RANDOM_GEN_CFG),
+              dict(file="scenarios/random_wrap.ndjson", cfg=RANDOM_GEN_CFG),
+              dict(file="scenarios/random_zh.ndjson", cfg="users=2,provs=1,bound=0,funds=25,timeout=2,price=10")]
 
 # histories recorded (VERIF_RECORD_DIR) and replayed by the cross-module checks C11 / C12
 RECORD = [dict(binary="random", n=T(3, 12), len=25, cfg="users=3,provs=2,funds=25,timeout=2")]
@@ -24,7 +37,9 @@ PROPS = {
     "C18": ModuleCheck("random", "Random.tla", "RandomTrace.tla", "RandomTrace.cfg", RANDOM_CLAUSES_C18,
                        RANDOM_MC, RANDOM_GEN, RANDOM_RND, scenarios=RANDOM_SCN,
                        required=["req_ok", "req_oracle_ok", "fulfil_block", "fulfil_oracle", "same_height_many",
-                                 "drop_err", "drop_timeout", "dup_id"],
+                                 "drop_err", "drop_timeout", "dup_id",
+                                 # beyond C18
+                                 "dup_replace", "dup_orphan", "dup_rewrite", "late_answer", "wrap", "zero_height"],
                        gen_cfg=RANDOM_GEN_CFG,
                        assumptions=["TLC 1.8, SANY, CommunityModules Json", "Go toolchain, crypto/sha256, math/big",
                                     "harness projection functions (raw prefix scans of the random store, service getters)",
